@@ -1,7 +1,7 @@
 #!/bin/sh
-# tools/seedstore3.sh <ID>   copy /tmp/seed3-<ID>/out/{1,2} to seeded/<ID>-c{1,2}, remove the worktree, confirm both
+# tools/seedstore3.sh <ID>   copy /tmp/seed${R:-3}-<ID>/out/{1,2} to seeded/<ID>-c{1,2}, remove the worktree, confirm both
 set -e
 P=$1
-for n in 1 2; do [ -d /tmp/seed3-$P/out/$n ] || continue; mkdir -p /verif/seeded/$P-c$n; cp -r /tmp/seed3-$P/out/$n/* /verif/seeded/$P-c$n/; done
-git -C /repo worktree remove --force /tmp/seed3-$P; rm -rf /tmp/seed3-$P; git -C /repo worktree prune
-for n in 1 2; do [ -d /verif/seeded/$P-c$n ] || continue; echo "#### $P-c$n"; /verif/tools/seedconfirm3.sh $P-c$n; done
+for n in 1 2; do [ -d /tmp/seed${R:-3}-$P/out/$n ] || continue; mkdir -p /verif/seeded/$P-${L:-c}$n; cp -r /tmp/seed${R:-3}-$P/out/$n/* /verif/seeded/$P-${L:-c}$n/; done
+git -C /repo worktree remove --force /tmp/seed${R:-3}-$P; rm -rf /tmp/seed${R:-3}-$P; git -C /repo worktree prune
+for n in 1 2; do [ -d /verif/seeded/$P-${L:-c}$n ] || continue; echo "#### $P-${L:-c}$n"; /verif/tools/seedconfirm3.sh $P-${L:-c}$n; done
